@@ -3,6 +3,8 @@ from . import COMMON_TB, NOTE
 PROP = {
     "modules": ["Proofs.C17"],
     "streams": [{"name": "numf"}, {"name": "filter"}, {"name": "conv", "shards": 8}],
+    # the json/inspect/type cases of the filter stream report a panic as C01 and a dependence on map insertion order as C02
+    "also": ["C01", "C02"],
     "rule": "numf: every pair from {-12..12, +-2^53, +-(2^53-1), 10^15, k/4 (k=-12..12), \"3\", \"2.5\", \"-1\", \" 1\", \"x\", \"\", nil, true} "
             "x every numeric filter (exhaustive), every integer kind of divisor/zero, whole results around fmt's exponent "
             "thresholds, random pipelines of 1..6 numeric filters; filter: every value of the boundary universe as receiver x "
